@@ -105,7 +105,7 @@ def parseOrig (l : String) : Option Bytes :=
 
 /-- behaviour of the tree after fixes/C30-decode-aws-chunked-without-auth.patch?
 FLIP to `true` once that patch is committed to /repo. -/
-def c30Fixed : Bool := false
+def c30Fixed : Bool := true
 
 /-- what the model says is stored: `none` = the request fails and nothing is stored -/
 def modelStored (authOn : Bool) (cfg : Config) (r : Req) : Option Bytes :=
